@@ -38,6 +38,8 @@ type NoiseSide struct {
 	// FailRemoteCB makes the next calls of the remote-key callback fail.
 	FailRemoteCB int
 	RemoteN      int
+	// FailAuthCB makes the next calls of the auth-data callback fail.
+	FailAuthCB int
 }
 
 // HSConfig describes a handshake experiment.
@@ -67,6 +69,12 @@ type HSConfig struct {
 	// FailRemoteCBC / FailRemoteCBS: how often the remote-key callback of
 	// the client / server fails (the application could not persist the key).
 	FailRemoteCBC, FailRemoteCBS int
+	// FailAuthCBC: how often the initiator's auth-data callback fails (the
+	// application could not persist the auth payload).
+	FailAuthCBC int
+	// WriteErrC2S / WriteErrS2C: transport write faults (sim.Half.WriteErr)
+	// on what the initiator / the responder writes.
+	WriteErrC2S, WriteErrS2C func(idx int, p []byte) (int, error)
 	// ReuseC / ReuseS: use this party (its ConnData, with whatever an earlier
 	// handshake stored in it) instead of a fresh one; the handshake pattern
 	// is then the one its ConnData asks for.
@@ -98,7 +106,15 @@ func newSide(key keychain.SingleKeyECDH, remote *btcec.PublicKey, pass, auth []b
 			s.RemoteN++
 			return nil
 		},
-		func(d []byte) error { s.AuthCB = append([]byte{}, d...); s.AuthCBn++; return nil },
+		func(d []byte) error {
+			if s.FailAuthCB > 0 {
+				s.FailAuthCB--
+				return fmt.Errorf("auth data could not be persisted (injected)")
+			}
+			s.AuthCB = append([]byte{}, d...)
+			s.AuthCBn++
+			return nil
+		},
 	)
 	return s
 }
@@ -133,13 +149,16 @@ func RunHandshake(cfg HSConfig) *HSResult {
 	if cfg.ReuseC != nil {
 		c = cfg.ReuseC
 		c.M, c.NewErr, c.Err, c.Done = nil, nil, nil, false
+		c.AuthCB, c.AuthCBn, c.RemoteCB, c.RemoteN = nil, 0, nil, 0 // per-handshake counters
 	}
 	if cfg.ReuseS != nil {
 		s = cfg.ReuseS
 		s.M, s.NewErr, s.Err, s.Done = nil, nil, nil, false
+		s.AuthCB, s.AuthCBn, s.RemoteCB, s.RemoteN = nil, 0, nil, 0
 	}
 	res := &HSResult{C: c, S: s}
 	c.FailRemoteCB, s.FailRemoteCB = cfg.FailRemoteCBC, cfg.FailRemoteCBS
+	c.FailAuthCB = cfg.FailAuthCBC
 	if !forceC {
 		patC = c.CD.HandshakePattern()
 	}
@@ -167,6 +186,7 @@ func RunHandshake(cfg HSConfig) *HSResult {
 	}
 	a, b, a2b, b2a := sim.NewDuplexPair()
 	a2b.Hook, b2a.Hook = cfg.HookC2S, cfg.HookS2C
+	a2b.WriteErr, b2a.WriteErr = cfg.WriteErrC2S, cfg.WriteErrS2C
 	// the client reads from b2a, the server from a2b
 	b2a.ReadMax, a2b.ReadMax = cfg.ReadMaxC, cfg.ReadMaxS
 	res.C2S, res.S2C = a2b, b2a
